@@ -3505,6 +3505,12 @@ func (ts *TokenStore) authRenew(ctx context.Context, req *logical.Request, d *fr
 
 	req.Auth.Period = role.TokenPeriod
 	req.Auth.ExplicitMaxTTL = role.TokenExplicitMaxTTL
+	// The explicit max TTL a token was issued with (the lesser of the
+	// caller's and the role's value at that time) cannot be raised or
+	// dropped afterwards, whatever the role says now.
+	if te.ExplicitMaxTTL > 0 && (req.Auth.ExplicitMaxTTL == 0 || te.ExplicitMaxTTL < req.Auth.ExplicitMaxTTL) {
+		req.Auth.ExplicitMaxTTL = te.ExplicitMaxTTL
+	}
 	return &logical.Response{Auth: req.Auth}, nil
 }
 
